@@ -307,7 +307,7 @@ pub fn run(tier: &str) -> Result<Report, String> {
             // closed duplicates inside / outside restricted scopes (also next to a nested quantifier with an empty domain), wild-cards
             // counted across scopes
             fs.extend(crate::formulas::restricted_scope_duplicates(&ctx.user));
-            fs.extend(crate::formulas::wildcard_count_texts().iter().map(|t| crate::formulas::f(t, &ctx.user)));
+            fs.extend(crate::formulas::wildcard_count_texts().iter().map(|t| crate::formulas::f(&crate::formulas::with_props_of(t, &ctx.user), &ctx.user)));
             if ctx.b.n >= 2 {
                 let pool: Vec<F> = collision_alphabet(&ctx.user).into_iter().take(if tier == "quick" { 14 } else { 28 }).collect();
                 fs.extend(pair_family(&pool, if tier == "quick" { 6 } else { 12 }, true));
